@@ -139,18 +139,104 @@ def rule_save_restore(ctx, R="C09/save-restore"):
               "the bytes written at the slot are not exactly that slot's bytes: %s" % why)
 
 
+COVERING_ITERS = ("chunks", "rchunks", "iter", "into_iter")
+LOSSY_ITERS = {"chunks_exact": "drops the remainder that does not fill a whole chunk", "rchunks_exact": "drops the remainder that does not fill a whole chunk",
+               "windows": "yields overlapping windows", "array_chunks": "drops the remainder", "step_by": "skips elements", "take": "stops early", "skip": "skips the head",
+               "take_while": "stops early", "skip_while": "skips the head", "filter": "skips elements"}
+
+
+def _helper_covers(prog, hb, k):
+    """does local helper `hb` hand ALL of its slice parameter k to a writer on every success path?  -> (True/False/None, reason)"""
+    from rules.c01 import loop_item
+    ho = Origin(hb)
+    ex = Exits(hb)
+    loops = hb.loops()
+    through, why = set(), []
+    for bi, t in hb.calls(lambda c: c.short in ("std::io::Write::write_all",)):
+        a = strip(ho.call_args(bi)[1])
+        if a == ("param", k):
+            through.add(bi)
+            continue
+        inner = [h for h, body in loops.items() if bi in body]
+        if not inner:
+            return None, "writes %s" % show(a)[:80]
+        h = min(inner, key=lambda x: len(loops[x]))
+        item = loop_item(hb, ho, h)
+        if not item or nosite(strip(a)) != nosite(strip(("some", item[0]))) and nosite(a) != nosite(("some", item[0])):
+            return None, "the loop does not write its own item (%s)" % show(a)[:80]
+        it = strip(item[0][2][0])
+        names = []
+        cur = it
+        while cur[0] == "call" and cur[2]:
+            names.append(cur[1].split("::")[-1])
+            cur = strip(cur[2][0])
+        lossy = [n for n in names if n in LOSSY_ITERS]
+        if lossy:
+            return False, "the pending bytes are walked with %s(), which %s" % (lossy[0], LOSSY_ITERS[lossy[0]])
+        if cur != ("param", k) or not names or any(n not in COVERING_ITERS for n in names):
+            return None, "the loop iterates %s" % show(it)[:80]
+        # the loop is left only when the iterator is exhausted or on an error exit
+        for x in loops[h]:
+            for (s_, lab) in hb.succ_edges(x):
+                if lab == ("unwind",) or s_ in loops[h]:
+                    continue
+                t2 = hb.term(x)
+                exhausted = t2["k"] == "switch" and strip(switch_atom(hb, ho, x)[0])[0] == "discr" and strip(strip(switch_atom(hb, ho, x)[0])[1])[0] == "call" and strip(strip(switch_atom(hb, ho, x)[0])[1])[1].split("::")[-1] == "next"
+                if exhausted or hb.term(s_)["k"] == "unreachable":
+                    continue
+                reach = hb.reachable_from(s_, unwind=False)
+                if any(ob in reach for ob in ex.ok_blocks()):
+                    return False, "the chunk loop can be left early on a success path"
+        through.add(h)
+    if not through:
+        return None, "no write of the parameter"
+    for ob in ex.ok_blocks():
+        if must_pass(hb, 0, {ob}, through) is not None:
+            return False, "a success path of the helper writes nothing"
+    return True, ""
+
+
+def append_sites(ctx, b, o):
+    """points of write_to_file where image bytes are handed to the destination: [(block, slice expression, verdict, reason)];
+    a direct write_all/write, or a call of a local helper that hands one of its slice arguments on"""
+    out = []
+    for bi, t in b.calls(lambda c: c.short in ("std::io::Write::write_all", "std::io::Write::write")):
+        out.append((bi, strip(o.call_args(bi)[1]), True, ""))
+    for bi, t in b.calls(lambda c: c.local and (c.target or c.short) in ctx.prog.by_short and not (c.target or c.short or "").endswith("dump_dir_entry")):
+        cv = CalleeView(t["callee"])
+        hb = ctx.prog.by_short[cv.target or cv.short][0]
+        if not any(True for _ in hb.calls(lambda c: c.short in ("std::io::Write::write_all", "std::io::Write::write"))):
+            continue
+        a = o.call_args(bi)
+        best = None
+        for k in range(2, len(a) + 1):
+            v, why = _helper_covers(ctx.prog, hb, k)
+            if best is None or v is True or (v is False and best[2] is None):
+                best = (bi, strip(a[k - 1]), v, "%s: %s" % (hb.short.split("::")[-1], why) if why else "")
+            if v is True:
+                break
+        if best:
+            out.append(best)
+    return out
+
+
 def rule_append_flush(ctx, R="C09/append-flush"):
     b = ctx.body(R, DS + "::write_to_file")
     if b is None:
         return
     o = Origin(b)
-    writes = [bi for bi, t in b.calls(lambda c: c.short in ("std::io::Write::write_all", "std::io::Write::write"))]
+    sites = append_sites(ctx, b, o)
+    writes = [x[0] for x in sites]
     ctx.floor(R, "destination writes in write_to_file", len(writes), 1)
     if len(writes) != 1:
         ctx.unproven(R, "shape", b.where(0), "expected exactly one append write (found %d)" % len(writes))
         return
     w = writes[0]
-    wa = strip(o.call_args(w)[1])
+    wa = sites[0][1]
+    if sites[0][2] is not True:
+        ctx.check(False, R, "append-complete", b.where(w), "", "the helper that hands the pending bytes to the destination does not write all of them — %s" % sites[0][3], unproven=sites[0][2] is None)
+    else:
+        ctx.ok(R, "append-complete", b.where(w), "every pending byte is handed to the destination (directly, or in chunks that cover the slice)")
     ok = False
     if wa[0] == "call" and wa[1].endswith("index"):
         base, rng = strip(wa[2][0]), strip(wa[2][1])
